@@ -45,6 +45,7 @@ var _ *x509.CertPool // contracts name types of crypto/x509
 //@   invariant forall(k, 0, rangeindex + 1, certs[k] != nil)
 //@ loop astra.copyTLSConfig$1 #2
 //@   invariant !$vpParseFailed && !$vpVerified && len(certs) == len(rawCerts) && certs[0] != nil
+//@   invariant opts.Intermediates != nil && fresh(opts.Intermediates) && opts.Intermediates.$added == rangeindex + 1
 
 //@ func astra.copyTLSConfig$1 [C19]
 //@   local $vpParseFailed bool = false
@@ -52,13 +53,17 @@ var _ *x509.CertPool // contracts name types of crypto/x509
 //@   local $vpAccepted bool = false
 //@   local $vpRoots *x509.CertPool = nil
 //@   local $vpDNSName string = ""
+//@   local $vpInter *x509.CertPool = nil
 //@   requires len(rawCerts) >= 1 && tlsConfig != nil && bundle != nil
 //@   after x509.ParseCertificate#* set $vpParseFailed = $vpParseFailed || result1 != nil
-//@   before x509.Certificate.Verify#* set $vpVerified = true; $vpRoots = arg1.Roots; $vpDNSName = arg1.DNSName
+//@   before x509.Certificate.Verify#* set $vpVerified = true; $vpRoots = arg1.Roots; $vpDNSName = arg1.DNSName; $vpInter = arg1.Intermediates
 //@   after x509.Certificate.Verify#* set $vpAccepted = (result1 == nil)
 //@   ensures accepts-only-verified: result == nil ==> !$vpParseFailed && $vpVerified && $vpAccepted
 //@   ensures verified-against-bundle: $vpVerified ==> $vpRoots == tlsConfig.RootCAs && $vpDNSName == bundle.Host
 //@   ensures rejects-unverified: $vpVerified && !$vpAccepted ==> result != nil
+// only the chain presented in this handshake helps the leaf: the pool of intermediates is created
+// by this call (nothing remembered from earlier handshakes) and holds the non-leaf certificates
+//@   ensures intermediates-of-this-handshake: $vpVerified ==> $vpInter != nil && fresh($vpInter) && $vpInter.$added == len(rawCerts) - 1
 //@   modifies *
 
 // LoadBundleZip: on success the configuration trusts a pool to which the bundle's CA was added
